@@ -335,6 +335,31 @@ pub fn c03(tier: Tier) -> i32 {
         cur.push(file("Top.sol", SRC_P2.as_bytes()));
         trees.push(cur);
     }
+    // name relations between entries (the property quantifies over every tree): names that differ only in letter
+    // case, byte-identical copies and same-named files with the same line sets in different directories, names
+    // that are prefixes of one another, directories named like source files, non-ASCII names in two normal forms
+    {
+        let d = |name: &str, children: Vec<Entry>| Entry::Dir { name: name.into(), children };
+        let p = SRC_P.as_bytes();
+        let pq = SRC_PQ.as_bytes();
+        let p2 = SRC_P2.as_bytes();
+        let extra: Vec<Vec<Entry>> = vec![
+            vec![file("Token.sol", p), file("token.sol", pq)],
+            vec![file("Token.sol", p), file("token.sol", p), file("TOKEN.sol", p)],
+            vec![d("Lib", vec![file("T.sol", p)]), d("lib", vec![file("T.sol", pq)])],
+            vec![d("Lib", vec![file("T.sol", p)]), d("lib", vec![file("t.sol", p)]), file("lib.sol", p2)],
+            vec![d("v1", vec![file("Token.sol", p)]), d("v2", vec![file("Token.sol", p)])],
+            vec![file("Token.sol", p), d("v2", vec![file("Token.sol", p)])],
+            vec![file("Token.sol", pq), d("mocks", vec![file("Token.sol", pq), file("Other.sol", pq)]), file("Zed.sol", pq)],
+            vec![d("a", vec![d("x", vec![file("Token.sol", p)])]), d("b", vec![d("x", vec![file("Token.sol", p)])]), file("Copy.sol", p)],
+            vec![file("A.sol", p), file("A.sol.sol", pq), file("AA.sol", p2), file("A.so", pq), file("A.solx", pq)],
+            vec![d("A.sol.d", vec![file("A.sol", p)]), file("A.sol", pq), d("A", vec![file("A.sol", p2)])],
+            vec![file("\u{e9}.sol", p), file("e\u{301}.sol", pq), file("\u{c9}.sol", p2)],
+            vec![file("One.sol", p), file("Two.sol", p), file("Three.sol", p), file("Four.sol", pq), file("Five.sol", pq)],
+            vec![file("E1.sol", b""), file("E2.sol", b""), file("Blank.sol", b" \n\t\r\n"), file("Z.sol", pq), d("zz", vec![file("Y.sol", p)])],
+        ];
+        trees.extend(extra);
+    }
     let sels = selections(tier);
     let res = util::par_map(trees.len(), |ti| {
         let tree = &trees[ti];
